@@ -141,6 +141,34 @@ def ensure_init():
         init_worker()
 
 
+# A worker process executes several units one after the other.  If an earlier unit left process-global state behind that changes
+# what later parses return, every later comparison in this worker would fail for a reason its own case does not contain.  So the
+# units executed so far are logged, a probe runs before each unit, and pollution is reported once, as a case that holds the whole
+# unit sequence (replayable on its own); the polluted worker then stops comparing.
+WORKER_LOG = []
+POLLUTED = False
+PROBE_CALLS = [('full', 'default'), ('props', 'props'), ('semantic', 'default'), ('enum', 'custom')]
+
+
+def probe_pollution(p):
+    global POLLUTED
+    if POLLUTED:
+        return True
+    for call in PROBE_CALLS:
+        heap.cold_reset()
+        out, db = do_call(call)
+        del db
+        if out != ISOLATED[call]:
+            POLLUTED = True
+            i = next((k for k, (a, b) in enumerate(zip(out, ISOLATED[call])) if a != b), 0)
+            p['violations'].append(violation(PID, 'later-parses-changed-by-earlier-calls', {'mode': 'pollution', 'units': [list(u) for u in WORKER_LOG], 'probe': list(call)},
+                                             expected=str(ISOLATED[call][i])[:400], observed=str(out[i])[:400],
+                                             detail=f'after the units {[list(u)[:2] for u in WORKER_LOG][-4:]} (… {len(WORKER_LOG)} in all) the call {call} no longer gives the outcome it gave '
+                                                    f'at the start of the process (field {i})'))
+            return True
+    return False
+
+
 def census_diff():
     now = heap.census()
     return {k: (BASELINE.get(k, 0), now.get(k, 0)) for k in set(BASELINE) | set(now) if BASELINE.get(k, 0) != now.get(k, 0)}
@@ -577,6 +605,10 @@ def work(unit):
     ensure_init()
     p = new_part()
     graph = {}
+    if probe_pollution(p):
+        p['outcomes']['unit-skipped-in-polluted-worker'] += 1
+        return p
+    WORKER_LOG.append(unit)
     if mode == 'hist2':
         first = CALLS[k]
         for start in ('warm', 'cold'):
@@ -643,9 +675,19 @@ def finish(ctx):
     pass
 
 
+def _retuple(x):
+    return tuple(_retuple(i) for i in x) if isinstance(x, list) else x
+
+
 def replay(case):
     ensure_init()
     p = new_part()
+    if case['mode'] == 'pollution':
+        vs = []
+        for u in case['units']:
+            vs += work(_retuple(u))['violations']
+        probe_pollution(p)
+        return p['violations'] + [v for v in vs if v['kind'] == 'later-parses-changed-by-earlier-calls']
     if case['mode'] == 'hist' and 'history' in case:
         run_history(p, case['start'], tuple(tuple(c) for c in case['history']), {}, False)
         check_census(p, case, 'after the history')
